@@ -403,6 +403,7 @@ func (c *ConcCtx) recvEvent(e *Exec, st *State, ch ChanRef, elem types.Type, sit
 		val = Ite(okv, ev.Val, t)
 	}
 	if ci.kind == "ticker" || ci.kind == "timer" {
+		e.ghostLog(st, "recv."+ci.kind, StrConst(site))
 		// payload: the tick's time stamp (arbitrary non-decreasing instant)
 		val = timeVal(True, e.clockRead(st, "wall"))
 	}
